@@ -1550,6 +1550,39 @@ func checkRefSibling(in refSiblingInput) string {
 	return ""
 }
 
+// danglingFixedPointers: pointers that lead nowhere although something nearby exists - an index under an `items` that is a
+// single schema, an index outside a tuple, an optional member the target does not have
+var danglingFixedPointers = []string{"#/definitions/arr/items/0", "#/definitions/arr/items/1", "#/definitions/tup/items/2", "#/definitions/tup/items/-1",
+	"#/definitions/arr/additionalItems", "#/definitions/arr/not", "#/definitions/tup/items/0/items"}
+
+func checkDanglingFixed(ptr string) string {
+	type m = map[string]interface{}
+	const rootURL = "file:///w/api/root.json"
+	root := m{"swagger": "2.0", "info": m{"title": "root", "version": "1"}, "paths": m{},
+		"definitions": m{"arr": m{"type": "array", "items": m{"type": "string"}},
+			"tup":  m{"type": "array", "items": []interface{}{m{"type": "string"}, m{"type": "integer"}}},
+			"uses": m{"type": "object", "properties": m{"bad": m{"$ref": ptr}}}}}
+	g := exFromGeneric(m{rootURL: root}, rootURL)
+	strict := exWorkerRun(g.call("expand_spec", exOpts{}))
+	if strict.Timeout || strict.Panic != "" {
+		return ""
+	}
+	if !strict.Err {
+		return fmt.Sprintf("no error although the `$ref` %q leads nowhere in the document", ptr)
+	}
+	cont := exWorkerRun(g.call("expand_spec", exOpts{Cont: true}))
+	if cont.Timeout || cont.Panic != "" {
+		return ""
+	}
+	if cont.Err {
+		return fmt.Sprintf("ContinueOnError: an error is returned for the unresolvable `$ref` %q: %.200s", ptr, cont.ErrText)
+	}
+	if exFindRefText(exDecode(cont.Out), func(r string) bool { return r == ptr }) == "" {
+		return fmt.Sprintf("ContinueOnError: the unresolvable `$ref` %q is not left in place", ptr)
+	}
+	return ""
+}
+
 func refSiblingCases() []refSiblingInput {
 	var out []refSiblingInput
 	for _, f := range []string{"missing-pointer", "refused-document"} {
@@ -1572,6 +1605,16 @@ func oracleC08Sibling(r *rng, n int, tier string) *oracleResult {
 			}
 		}
 	}
+	for _, ptr := range danglingFixedPointers {
+		res.Evaluations++
+		res.Distinct++
+		if msg := checkDanglingFixed(ptr); msg != "" {
+			res.Stats["fail:dangling-near-something"]++
+			if len(res.Failures) < 3 {
+				res.Failures = append(res.Failures, failure{Property: "C08", What: msg, Shape: "silent-failure:pointer-that-leads-nowhere", Input: refSiblingInput{Kind: "pointer", Fault: ptr}})
+			}
+		}
+	}
 	res.Samples = []interface{}{refSiblingInput{"response", "missing-pointer", "operation"}}
 	return res
 }
@@ -1582,6 +1625,12 @@ func init() {
 		var in refSiblingInput
 		res := &oracleResult{Stats: map[string]int{}, Evaluations: 1}
 		if json.Unmarshal(input, &in) != nil {
+			return res
+		}
+		if in.Kind == "pointer" {
+			if msg := checkDanglingFixed(in.Fault); msg != "" {
+				res.Failures = append(res.Failures, failure{Property: "C08", What: msg, Shape: "silent-failure:pointer-that-leads-nowhere", Input: in})
+			}
 			return res
 		}
 		if msg := checkRefSibling(in); msg != "" {
